@@ -1,8 +1,9 @@
 import Uft.Lemmas.Trunc
 import Uft.Lemmas.TextFiles
+import Uft.Lemmas.TextLines
 /-
 C12 — Analysis commands survive truncated or partially written data.
-Property theorems only (helpers: Lemmas/Trunc.lean, Lemmas/TextFiles.lean).
+Property theorems only (helpers: Lemmas/Trunc.lean, Lemmas/TextFiles.lean, Lemmas/TextLines.lean).
 
 Part 1: the per-task trace data (`<tid>.dat`), model Uft/Model/Trunc.lean.
 `readAll true` is the reader with proposed_fixes/C12-F7.diff, C12-S4.diff, C12-F14.diff applied,
@@ -134,7 +135,9 @@ theorem c12_prefix_partial_payload_witness :
 /-!
 Part 2: the text files (`info`, `task.txt`, `sid-*.map`, `*.sym`), models Uft/Model/InfoFile.lean
 and Uft/Model/TaskTxt.lean.  `fixed = true`: with proposed_fixes/C12-F8, -S2, -F8t, -F8s, -F13,
--F12, -S3, -F16, -F17 applied.
+-F12, -S3, -F16, -F17 applied (memory safety).  `nl = true`: with proposed_fixes/C12-F18i (info),
+-F18t (task.txt), -F18m (map), -F18s (.sym) applied: a last line without its newline is an incomplete
+record and ends the file (Part 3 below).  The in-bounds theorems hold for both values of `nl`.
 -/
 open Uft.TextScan (b PR)
 open Uft.InfoFile (parseInfo)
@@ -144,18 +147,18 @@ open Uft.TaskTxt (parseTaskTxt parseMap parseSym chromeHeader replayNamesOk isKe
     EVERY byte string (so in particular on every cut of every file): it returns a value or an
     error enum, never `oob`.  The last conjunct is the `dump --chrome` header walk over the tids
     of `info` against whatever task list was parsed. -/
-theorem c12_parsers_total_in_bounds (bs modname : List UInt8) :
-    (parseInfo true bs).isOob = false ∧ (parseTaskTxt true bs).isOob = false ∧
-    (parseMap true bs).isOob = false ∧ (parseSym true modname bs).isOob = false ∧
+theorem c12_parsers_total_in_bounds (nl : Bool) (bs modname : List UInt8) :
+    (parseInfo true nl bs).isOob = false ∧ (parseTaskTxt true nl bs).isOob = false ∧
+    (parseMap true nl bs).isOob = false ∧ (parseSym true nl modname bs).isOob = false ∧
     (∀ items tids, (chromeHeader true items tids).isOob = false) ∧
     (∀ ls, replayNamesOk true ls = true) :=
-  ⟨InfoFile.parseInfo_safe bs, TaskTxt.parseTaskTxt_safe bs, TaskTxt.parseMap_safe bs,
-   TaskTxt.parseSym_safe modname bs, TaskTxt.chromeHeader_safe, fun _ => rfl⟩
+  ⟨InfoFile.parseInfo_safe nl bs, TaskTxt.parseTaskTxt_safe nl bs, TaskTxt.parseMap_safe nl bs,
+   TaskTxt.parseSym_safe nl modname bs, TaskTxt.chromeHeader_safe, fun _ => rfl⟩
 
 /-- With C12-F12.diff a map file never makes a user-space address a kernel address: the kernel
     base is either the writer's "none" value or one of `guess_kernel_base`'s, all ≥ 1 GiB —
     whatever bytes the map file holds (cut before the `[stack]` line or anywhere else). -/
-theorem c12_map_kernel_base_sane (bs : List UInt8) (m : Maps) (h : parseMap true bs = .ok m) :
+theorem c12_map_kernel_base_sane (nl : Bool) (bs : List UInt8) (m : Maps) (h : parseMap true nl bs = .ok m) :
     0x40000000 ≤ m.kernelBase ∧ ∀ a, a < 0x40000000 → isKernel m a = false := by
   have hk := TaskTxt.mapLines_kb _ h (by decide)
   refine ⟨hk, fun a ha => ?_⟩
@@ -164,7 +167,7 @@ theorem c12_map_kernel_base_sane (bs : List UInt8) (m : Maps) (h : parseMap true
 
 /-- non-vacuity: the repaired reader on a map file without `[stack]` line succeeds, with the
     writer's "no kernel" base -/
-example : (match parseMap true (b "400000-402000 r-xp 00000000 00:00 0     /p\n") with
+example : (match parseMap true false (b "400000-402000 r-xp 00000000 00:00 0     /p\n") with
     | .ok m => m.kernelBase == 2 ^ 64 - 1 && m.maps.length == 1
     | _ => false) = true := by decide +kernel
 
@@ -177,47 +180,47 @@ def hdr40 (mask : Nat) : List UInt8 :=
 /-- F8 witness: `info` cut right after `exename:` — `copy_info_str` reads `dst[-1]`;
     the repaired reader reports the failing section instead. -/
 theorem c12_prefix_info_key_cut_witness :
-    (parseInfo false (hdr40 1 ++ b "exename:")).isOob = true ∧
-    (parseInfo true (hdr40 1 ++ b "exename:")).isOob = false ∧
-    (parseInfo false (hdr40 1 ++ b "exename:/p\n")).isOob = false := by
+    (parseInfo false false (hdr40 1 ++ b "exename:")).isOob = true ∧
+    (∀ nl, (parseInfo true nl (hdr40 1 ++ b "exename:")).isOob = false) ∧
+    (parseInfo false false (hdr40 1 ++ b "exename:/p\n")).isOob = false := by
   decide +kernel
 
 /-- S2 witness: the `tids=` fill writes `tids[nr_tid]`: a zero-task `info` cut right after
     `taskinfo:tids=`, and an `info` listing more tids than `nr_tid`. -/
 theorem c12_prefix_tids_overflow_witness :
-    (parseInfo false (hdr40 128 ++ b "taskinfo:lines=2\ntaskinfo:nr_tid=0\ntaskinfo:tids=")).isOob = true ∧
-    (parseInfo false (hdr40 128 ++ b "taskinfo:lines=2\ntaskinfo:nr_tid=1\ntaskinfo:tids=5,6\n")).isOob = true ∧
-    (parseInfo false (hdr40 128 ++ b "taskinfo:lines=2\ntaskinfo:nr_tid=2\ntaskinfo:tids=5,6\n")).isOob = false := by
+    (parseInfo false false (hdr40 128 ++ b "taskinfo:lines=2\ntaskinfo:nr_tid=0\ntaskinfo:tids=")).isOob = true ∧
+    (parseInfo false false (hdr40 128 ++ b "taskinfo:lines=2\ntaskinfo:nr_tid=1\ntaskinfo:tids=5,6\n")).isOob = true ∧
+    (parseInfo false false (hdr40 128 ++ b "taskinfo:lines=2\ntaskinfo:nr_tid=2\ntaskinfo:tids=5,6\n")).isOob = false := by
   decide +kernel
 
 /-- F8t witness: task.txt cut right after `exename=`, or after a bare tag. -/
 theorem c12_prefix_tasktxt_cut_witness :
-    (parseTaskTxt false (b "SESS timestamp=1.2 pid=1 sid=abc exename=")).isOob = true ∧
-    (parseTaskTxt false (b "TASK timestamp=1.2 tid=5 pid=5\nTASK")).isOob = true ∧
-    (parseTaskTxt false (b "SESS timestamp=1.2 pid=1 sid=abc exename=\"")).isOob = false := by
+    (parseTaskTxt false false (b "SESS timestamp=1.2 pid=1 sid=abc exename=")).isOob = true ∧
+    (parseTaskTxt false false (b "TASK timestamp=1.2 tid=5 pid=5\nTASK")).isOob = true ∧
+    (parseTaskTxt false false (b "SESS timestamp=1.2 pid=1 sid=abc exename=\"")).isOob = false := by
   decide +kernel
 
 /-- S3 witness: `sid=%s` without a width leaves the message struct for a long token. -/
 theorem c12_prefix_scanf_width_witness :
-    (parseTaskTxt false (b "SESS timestamp=1.2 pid=1 sid=0123456789012345678901234 exename=\"x\"")).isOob = true ∧
-    (parseMap false (b "400000-402000 r-xpp 00000000 00:00 0 /p\n")).isOob = true := by
+    (parseTaskTxt false false (b "SESS timestamp=1.2 pid=1 sid=0123456789012345678901234 exename=\"x\"")).isOob = true ∧
+    (parseMap false false (b "400000-402000 r-xpp 00000000 00:00 0 /p\n")).isOob = true := by
   decide +kernel
 
 /-- F8s / F13 witnesses: a `.sym` file cut right after `# path name: `, and a symbol line cut
     right before the type. -/
 theorem c12_prefix_symfile_cut_witness :
-    (parseSym false (b "/p") (b "# path name: ")).isOob = true ∧
-    (parseSym false (b "/p") (b "# path name: /p\n0000000000001000 00000100 ")).isOob = true ∧
-    (parseSym false (b "/p") (b "# path name: /p\n0000000000001000 00000100")).isOob = false := by
+    (parseSym false false (b "/p") (b "# path name: ")).isOob = true ∧
+    (parseSym false false (b "/p") (b "# path name: /p\n0000000000001000 00000100 ")).isOob = true ∧
+    (parseSym false false (b "/p") (b "# path name: /p\n0000000000001000 00000100")).isOob = false := by
   decide +kernel
 
 /-- F12 witness: the reader as found, on a map file without `[stack]` line, makes the user
     address 0x401000 a kernel address. -/
 theorem c12_prefix_map_kernel_witness :
-    (match parseMap false (b "400000-402000 r-xp 00000000 00:00 0     /p\n") with
+    (match parseMap false false (b "400000-402000 r-xp 00000000 00:00 0     /p\n") with
      | .ok m => isKernel m 0x401000
      | _ => false) = true ∧
-    (match parseMap true (b "400000-402000 r-xp 00000000 00:00 0     /p\n") with
+    (match parseMap true false (b "400000-402000 r-xp 00000000 00:00 0     /p\n") with
      | .ok m => isKernel m 0x401000
      | _ => true) = false := by
   decide +kernel
@@ -247,6 +250,189 @@ theorem c12_prefix_watch_len_witness :
     let bs := encHdr { time := 1, typ := 3, more := true, depth := 0, addr := watchVarId, payload := [] } ++
       leBytes 2 4 ++ zeros 16
     (readAll false ctxW bs).2.1 = .oob ∧ (readAll true ctxW bs).2.1 = .badEvent := by
+  decide +kernel
+
+/-!
+Part 3: the text files, "exactly as for a copy cut at the last whole record".  A record of a text file
+is a line with its newline.  `TextScan.wholeLines s` is `s` cut at its last newline,
+`InfoFile.infoWhole s` the same behind the 40-byte binary header of `info`.  The readers with
+proposed_fixes/C12-F18i, -F18t, -F18m, -F18s (`nl = true`) read a cut file exactly as they read that
+copy, for EVERY byte content and every cut position; the readers as found (`nl = false`) do not
+(witnesses below).
+-/
+open Uft.TextScan (wholeLines joinLines wholeLinesBefore NL)
+open Uft.InfoFile (infoWhole)
+open Uft.TaskTxt (taskFields hasTask)
+
+/-- `wholeLines s` is `s` cut at its last newline: it is a prefix of `s`, what is behind it holds no
+    newline, and it is empty or ends with a newline (so it is the longest such prefix). -/
+theorem c12_whole_lines_is_last_newline_cut (s : List UInt8) :
+    (∃ t, s = wholeLines s ++ t ∧ t.contains NL = false) ∧
+    (wholeLines s = [] ∨ (wholeLines s).getLast? = some NL) ∧
+    wholeLines (wholeLines s) = wholeLines s :=
+  ⟨TextScan.wholeLines_prefix s, TextScan.wholeLines_last s, TextScan.wholeLines_idem s⟩
+
+/-- C12 last clause for task.txt, the map file and the symbol file: for every byte content `file`,
+    every cut position `k` (and with or without the memory-safety fixes), the repaired reader's
+    result on the cut file IS its result on the copy cut at the last newline at or before `k`:
+    nothing of an incomplete last line is delivered, and it changes nothing. -/
+theorem c12_text_cut_equals_last_whole_line (fixed : Bool) (file modname : List UInt8) (k : Nat) :
+    parseTaskTxt fixed true (file.take k) = parseTaskTxt fixed true (wholeLines (file.take k)) ∧
+    parseMap fixed true (file.take k) = parseMap fixed true (wholeLines (file.take k)) ∧
+    parseSym fixed true modname (file.take k) = parseSym fixed true modname (wholeLines (file.take k)) :=
+  ⟨(TaskTxt.parseTaskTxt_whole fixed _).symm, (TaskTxt.parseMap_whole fixed _).symm,
+   (TaskTxt.parseSym_whole fixed modname _).symm⟩
+
+/-- The same for `info` (40-byte binary header, then lines): every handler of `read_uftrace_info`
+    reads the cut file as it reads the copy cut at the last whole line. -/
+theorem c12_info_cut_equals_last_whole_line (fixed : Bool) (file : List UInt8) (k : Nat) :
+    parseInfo fixed true (file.take k) = parseInfo fixed true (infoWhole (file.take k)) :=
+  (InfoFile.parseInfo_whole fixed _).symm
+
+/-- Records view (the analogue of `c12_cut_equals_whole_prefix`): a file written as the lines `ls`
+    (each followed by a newline), cut at ANY byte `k`, is read as the file made of the
+    `wholeLinesBefore ls k` lines that are completely inside the first `k` bytes. -/
+theorem c12_text_cut_equals_whole_records (fixed : Bool) (ls : List (List UInt8)) (modname : List UInt8)
+    (hl : ∀ l ∈ ls, l.contains NL = false) (k : Nat) :
+    let whole := joinLines (ls.take (wholeLinesBefore ls k))
+    parseTaskTxt fixed true ((joinLines ls).take k) = parseTaskTxt fixed true whole ∧
+    parseMap fixed true ((joinLines ls).take k) = parseMap fixed true whole ∧
+    parseSym fixed true modname ((joinLines ls).take k) = parseSym fixed true modname whole := by
+  intro whole
+  have h := TextScan.wholeLines_take_joinLines ls hl k
+  refine ⟨?_, ?_, ?_⟩
+  · rw [← TaskTxt.parseTaskTxt_whole, h]
+  · rw [← TaskTxt.parseMap_whole, h]
+  · rw [← TaskTxt.parseSym_whole, h]
+
+/-- … and for `info`: header `hdr` (40 bytes) followed by the lines `ls`, cut anywhere behind the
+    header. -/
+theorem c12_info_cut_equals_whole_records (fixed : Bool) (hdr : List UInt8) (ls : List (List UInt8))
+    (hh : hdr.length = 40) (hl : ∀ l ∈ ls, l.contains NL = false) (k : Nat) :
+    parseInfo fixed true ((hdr ++ joinLines ls).take (40 + k)) =
+      parseInfo fixed true (hdr ++ joinLines (ls.take (wholeLinesBefore ls k))) := by
+  rw [← InfoFile.parseInfo_whole]
+  have e : (hdr ++ joinLines ls).take (40 + k) = hdr ++ (joinLines ls).take k := by
+    rw [List.take_append, List.take_of_length_le (by omega)]
+    congr 2
+    omega
+  have hlen : ¬ (hdr ++ (joinLines ls).take k).length < 40 := by
+    simp only [List.length_append]; omega
+  have e1 : (hdr ++ (joinLines ls).take k).take 40 = hdr := by
+    rw [List.take_append_of_le_length (by omega), List.take_of_length_le (by omega)]
+  have e2 : (hdr ++ (joinLines ls).take k).drop 40 = (joinLines ls).take k := by
+    rw [List.drop_append_of_le_length (by omega), List.drop_eq_nil_of_le (by omega)]; rfl
+  rw [e]
+  unfold infoWhole
+  rw [if_neg hlen, e1, e2, TextScan.wholeLines_take_joinLines ls hl k]
+
+/-- Composition: whatever a command computes from the four parses (the header and system
+    information, the task and session list, the maps, the symbols), on a directory whose text files
+    are cut at arbitrary bytes it computes exactly what it computes on the copies cut at the last
+    whole record.  Together with `c12_commands_prefix` (trace data) this is the last sentence of C12
+    for the readers; what the commands do with the results is C06/C08/C15. -/
+theorem c12_commands_prefix_text {α : Type} (fixed : Bool)
+    (cmd : PR (InfoFile.Hdr × InfoFile.Info) → PR (List TaskTxt.Item) → PR Maps → PR TaskTxt.SymFile → α)
+    (info task map sym modname : List UInt8) (ki kt km ks : Nat) :
+    cmd (parseInfo fixed true (info.take ki)) (parseTaskTxt fixed true (task.take kt))
+        (parseMap fixed true (map.take km)) (parseSym fixed true modname (sym.take ks)) =
+    cmd (parseInfo fixed true (infoWhole (info.take ki))) (parseTaskTxt fixed true (wholeLines (task.take kt)))
+        (parseMap fixed true (wholeLines (map.take km))) (parseSym fixed true modname (wholeLines (sym.take ks))) := by
+  rw [InfoFile.parseInfo_whole, TaskTxt.parseTaskTxt_whole, TaskTxt.parseMap_whole, TaskTxt.parseSym_whole]
+
+/-- With C12-F19.diff the commands that use `task->t` of every task listed in `info`
+    (`replay -f task`, `report --task`, `graph --task`) never meet a NULL task, whatever task.txt
+    held: every tid is shown, the ones without a TASK/FORK line as nameless tasks. -/
+theorem c12_task_fields_total (items : List TaskTxt.Item) (tids : List Int) :
+    taskFields true items tids = .ok (tids.map fun t => (t, hasTask items t)) := by
+  induction tids with
+  | nil => rfl
+  | cons t r ih => simp [taskFields, ih]
+
+/-! ### non-vacuity and the F18 / F19 findings as theorems about the readers as found -/
+
+def taskLinesW : List (List UInt8) :=
+  [b "SESS timestamp=0.000001000 pid=101 sid=a1b2c3d4e5f60718 exename=\"/synth/prog\"",
+   b "TASK timestamp=0.000001001 tid=101 pid=101",
+   b "FORK timestamp=0.000002450 pid=103 ppid=101"]
+
+/-- the hypotheses of the records-view theorems are satisfiable, and the counting is the expected
+    one: task.txt of the two-task directory of the check, 165 bytes; a cut at byte 160 (inside the
+    FORK line) leaves two whole records, a cut at 121 (right behind the TASK line) too -/
+example : (∀ l ∈ taskLinesW, l.contains NL = false) ∧ (joinLines taskLinesW).length = 165 ∧
+    wholeLinesBefore taskLinesW 160 = 2 ∧ wholeLinesBefore taskLinesW 121 = 2 ∧
+    wholeLinesBefore taskLinesW 120 = 1 ∧ wholeLinesBefore taskLinesW 165 = 3 := by
+  decide +kernel
+
+/-- … and for `info`: a 40-byte header and the version section; 20 bytes of text hold no whole line,
+    22 bytes hold the one line -/
+example : (hdr40 8192).length = 40 ∧ (∀ l ∈ [b "uftrace_version:v0.17"], l.contains NL = false) ∧
+    wholeLinesBefore [b "uftrace_version:v0.17"] 20 = 0 ∧ wholeLinesBefore [b "uftrace_version:v0.17"] 22 = 1 ∧
+    (hdr40 8192 ++ joinLines [b "uftrace_version:v0.17"]).take (40 + 20) = hdr40 8192 ++ b "uftrace_version:v0.1" := by
+  decide +kernel
+
+/-- F18t witness: task.txt cut inside the last line.  The reader as found delivers a FORK record
+    with parent 10 (the file says `ppid=101`) — a record that is not completely present; the repaired
+    reader delivers the two whole records, as for the copy cut behind the TASK line. -/
+theorem c12_prefix_tasktxt_line_cut_witness :
+    let cut := (joinLines taskLinesW).take 163
+    parseTaskTxt true false cut =
+      .ok [.sess 1000 101 (b "a1b2c3d4e5f60718") (b "/synth/prog"), .task 1001 101 101, .fork 2450 103 10] ∧
+    parseTaskTxt true true cut =
+      .ok [.sess 1000 101 (b "a1b2c3d4e5f60718") (b "/synth/prog"), .task 1001 101 101] ∧
+    parseTaskTxt true false cut ≠ parseTaskTxt true false (wholeLines cut) := by
+  decide +kernel
+
+/-- F18i witness: `info` (here: only the version section) cut inside its last line: the reader as
+    found stores the version "v0.1" of a file that says "v0.17"; the repaired reader reports the
+    section as unreadable, as for the copy cut at the last whole line. -/
+theorem c12_prefix_info_line_cut_witness :
+    let cut := hdr40 8192 ++ b "uftrace_version:v0.1"
+    ((match parseInfo true false cut with
+      | .ok (_, i) => i.get "uftrace_version:" == some (b "v0.1")
+      | _ => false) = true) ∧
+    ((match parseInfo true false (hdr40 8192 ++ b "uftrace_version:v0.17\n") with
+      | .ok (_, i) => i.get "uftrace_version:" == some (b "v0.17")
+      | _ => false) = true) ∧
+    infoWhole cut = hdr40 8192 ∧
+    ((match parseInfo true true cut, parseInfo true false (infoWhole cut) with
+      | .err e1, .err e2 => e1 == "info bit 13" && e2 == "info bit 13"
+      | _, _ => false) = true) := by
+  decide +kernel
+
+/-- F18m witness: the map file cut inside the path of its last line: the reader as found creates a
+    mapping for "/synth/pro" (the file says "/synth/prog"); the repaired reader creates none. -/
+theorem c12_prefix_map_line_cut_witness :
+    let cut := b "400000-402000 r-xp 00000000 00:00 0                          /synth/pro"
+    ((match parseMap true false cut with
+      | .ok m => m.maps.map (·.path) == [b "/synth/pro"]
+      | _ => false) = true) ∧
+    ((match parseMap true true cut with
+      | .ok m => m.maps.isEmpty
+      | _ => false) = true) ∧ wholeLines cut = [] := by
+  decide +kernel
+
+/-- F18s witness: the symbol file cut inside the name of its last symbol: the loader as found creates
+    the symbol "le" (the file says "leaf"); the repaired loader stops at the last whole line. -/
+theorem c12_prefix_symfile_line_cut_witness :
+    let cut := b "# path name: /p\n0000000000001000 00000100 T main\n0000000000001200 00000040 T le"
+    ((match parseSym true false (b "/p") cut with
+      | .ok f => f.lines.map (·.name) == [b "main", b "le"]
+      | _ => false) = true) ∧
+    ((match parseSym true true (b "/p") cut with
+      | .ok f => f.lines.map (·.name) == [b "main"]
+      | _ => false) = true) ∧
+    parseSym true true (b "/p") cut = parseSym true false (b "/p") (wholeLines cut) := by
+  decide +kernel
+
+/-- F19 witness: task.txt cut right behind the TASK line (a whole-record cut), `info` lists the tids
+    101 and 103: the commands that use `task->t` (`report --task`, `graph --task`, `replay -f task`)
+    dereference the NULL task of 103; with C12-F19.diff 103 is a nameless task. -/
+theorem c12_prefix_task_missing_witness :
+    (match parseTaskTxt true true ((joinLines taskLinesW).take 121) with
+     | .ok items => (taskFields false items [101, 103]).isOob &&
+                    (taskFields true items [101, 103] matches .ok [(101, true), (103, false)])
+     | _ => false) = true := by
   decide +kernel
 
 end Uft.C12
